@@ -1,6 +1,6 @@
 SPECIFICATION Spec
 CONSTANTS
-  MaxLen = 5
+  MaxLen = 4
   Detect = TRUE
   Tr = "sgio"
 INVARIANT SameMedium
